@@ -9,9 +9,27 @@
    What is stated and NOT proved: [C01_compile_correct_statement], the full
    property over the compiler and VM model.  The check decides it on each run
    by differential evidence (implementation vs Sem, implementation vs VM
-   model); this is testing, labelled as such in MANIFEST and evidence. *)
+   model); this is testing, labelled as such in MANIFEST and evidence.
+
+   What is proved of it ([C01_pure_expressions_partial] and the theorems
+   around it; ExprSem.v, ExprVM.v, ExprCorrect.v, ExprTop.v): for every PURE
+   expression — int/float/bool/string literals, global variables, every binary
+   operator, unary - # ! ~, nested to any depth — the code the compiler model
+   emits, in every context (any operand selector, any combination of the
+   flags Discard/ForbidTemp/AcceptTemp/Returning/OpDepth/...), run by the VM
+   model from any state, leaves exactly the value the definitional semantics
+   computes where the returned operand says (stack, temp register, data
+   segment, global), keeps the stack below it, keeps the temp register when
+   the context forbids its use, and stops with the same error class when the
+   expression has a runtime error.  Through ByteCode/load/Run and through
+   run_tree (the functions the correspondence check runs against the Go
+   code) the result equals Sem's, the operand stack is back where it was and
+   globals and output are untouched.  Missing for the full statement:
+   statements with effects (assignment, calls, control flow, generators),
+   locals and closures, arrays and indexing. *)
 Require Import Calc.Base Calc.Bytecode Calc.Value Calc.FloatText Calc.Ast Calc.Resolve Calc.Compile
-        Calc.VM Calc.Sem Calc.Session Calc.CorrSession Calc.SemSession Calc.SemProofs.
+        Calc.VM Calc.Sem Calc.Session Calc.CorrSession Calc.SemSession Calc.SemProofs
+        Calc.ExprSem Calc.ExprVM Calc.ExprCorrect Calc.ExprTop.
 Open Scope Z_scope.
 
 (* ---- the full statement (open) ---- *)
@@ -36,6 +54,78 @@ Definition C01_compile_correct_statement : Prop :=
     c <> CFuel -> r <> TFuel ->
     v_dead_read (mc_vm mc') = false -> v_grew_captured (mc_vm mc') = false ->
     tree_obs_equal r c /\ out_text (mc_vm mc') = sem_out st'.
+
+(* ---- proved: the statement on pure expressions, all depths and contexts ---- *)
+Theorem C01_pure_expressions_partial : forall e s s' v c m fuel fs env st,
+  pure e = true -> wfcs s -> idle v s c m ->
+  ByteCode e s = CompOk s' -> (Z.to_nat (ncs s' - ncs s) < fuel)%nat ->
+  s_globals st = v_globals v -> (height e <= fs)%nat ->
+  exists ctl, eval fs e env st = Done st ctl /\ agrees ctl (snd (Run fuel (load_code v s') true)).
+Proof. exact pure_expression_compiled_correctly. Qed.
+Print Assumptions C01_pure_expressions_partial.
+
+(* the value, and what must not change: stack pointer, cells below, globals, output *)
+Theorem C01_pure_expression_run : forall e s s' v c m fuel,
+  pure e = true -> wfcs s -> idle v s c m ->
+  ByteCode e s = CompOk s' -> (Z.to_nat (ncs s' - ncs s) < fuel)%nat ->
+  wfcs s' /\
+  match den (v_globals v) e with
+  | Ok x =>
+      exists v' m', Run fuel (load_code v s') true = (v', RValue x) /\
+        assoc_get (v_mems v') (c_mid c) = Some m' /\ m_sp m' = m_sp m /\ msame (m_sp m) m m' /\
+        v_globals v' = v_globals v /\ v_out v' = v_out v /\
+        (exists c', assoc_get (v_ctxs v') 0 = Some c' /\ c_ip c' = ncs s' /\ c_mid c' = c_mid c)
+  | Fail err => exists v' rep, Run fuel (load_code v s') true = (v', RError err rep)
+  end.
+Proof. exact bytecode_run_pure. Qed.
+Print Assumptions C01_pure_expression_run.
+
+(* one statement of a session, through the functions the check runs: the machine is ready for the next *)
+Theorem C01_pure_expression_in_a_session : forall e mc c m s',
+  pure e = true -> machine_idle mc c m ->
+  ByteCode e (mc_cs mc) = CompOk s' -> ncs s' - ncs (mc_cs mc) < 400000 ->
+  match den (v_globals (mc_vm mc)) e with
+  | Ok x => exists mc' c' m', run_tree false mc e = (mc', TValue x) /\ machine_idle mc' c' m' /\
+              m_sp m' = m_sp m /\ c_mid c' = c_mid c /\
+              v_globals (mc_vm mc') = v_globals (mc_vm mc) /\ v_out (mc_vm mc') = v_out (mc_vm mc)
+  | Fail err => exists mc' rep, run_tree false mc e = (mc', TError err rep)
+  end.
+Proof. exact run_tree_pure. Qed.
+Print Assumptions C01_pure_expression_in_a_session.
+
+(* the semantics of a pure expression is its denotation, whatever the environment *)
+Theorem C01_sem_pure : forall e, pure e = true -> forall fuel env st, (height e <= fuel)%nat ->
+  eval fuel e env st = Done st (ctl_of (den (s_globals st) e)).
+Proof. exact eval_pure. Qed.
+Print Assumptions C01_sem_pure.
+
+(* the premises are met: the machine after the first statement of a session is idle *)
+Definition mc_after_first : machine :=
+  match machine_new with
+  | Some mc0 => fst (run_tree false mc0 (NInt 0))
+  | None => {| mc_cs := cstate0; mc_vm := vm_new |}
+  end.
+
+Example C01_pure_premises_hold :
+  (exists c m, machine_idle mc_after_first c m) /\
+  pure (NBin "-" (NBin "*" (NBin "+" (NInt 1) (NFloat 2)) (NBin "+" (NInt 1) (NFloat 2))) (NUn "-" (NUn "#" (NStr "abc")))) = true /\
+  snd (run_tree false mc_after_first
+         (NBin "-" (NBin "*" (NBin "+" (NInt 1) (NFloat 2)) (NBin "+" (NInt 1) (NFloat 2))) (NUn "-" (NUn "#" (NStr "abc")))))
+  = TValue (VFloat 12).
+Proof.
+  split; [|split; [reflexivity|vm_compute; reflexivity]].
+  assert (E : exists c m, assoc_get (v_ctxs (mc_vm mc_after_first)) 0 = Some c /\
+                          assoc_get (v_mems (mc_vm mc_after_first)) (c_mid c) = Some m /\
+                          c_ip c = ncs (mc_cs mc_after_first) /\
+                          (0 <=? m_sp m) && (m_sp m <=? zlen (m_stack m)) = true /\
+                          (ncs (mc_cs mc_after_first) =? zlen (rcs (mc_cs mc_after_first))) &&
+                          (nds (mc_cs mc_after_first) =? zlen (rds (mc_cs mc_after_first))) = true).
+  { vm_compute. eexists. eexists. repeat split; reflexivity. }
+  destruct E as [c [m (E1 & E2 & E3 & E4 & E5)]]. exists c, m.
+  apply andb_prop in E4. destruct E4 as [E4a E4b]. apply Z.leb_le in E4a. apply Z.leb_le in E4b.
+  apply andb_prop in E5. destruct E5 as [E5a E5b]. apply Z.eqb_eq in E5a. apply Z.eqb_eq in E5b.
+  split; [split; assumption|]. constructor; try assumption. split; assumption.
+Qed.
 
 (* ---- proved: the oracle follows the language rules ---- *)
 Theorem C01_sem_binop_left_error : forall n op c l r e st st1 x,
